@@ -19,6 +19,9 @@ import (
 //nolint:gochecknoglobals
 var (
 	asciiRegex = regexp.MustCompile("^[A-Za-z0-9_-]+$")
+
+	// the characters of RFC 3986: unreserved, reserved and '%'
+	uriCharsRegex = regexp.MustCompile("^[A-Za-z0-9._~:/?#\\[\\]@!$&'()*+,;=%-]+$")
 )
 
 const (
@@ -290,8 +293,13 @@ func validateURI(uri string) error {
 		return errors.New("service endpoint URI is empty")
 	}
 
-	if _, err := url.ParseRequestURI(uri); err != nil {
+	u, err := url.Parse(uri)
+	if err != nil {
 		return fmt.Errorf("service endpoint '%s' is not a valid URI: %s", uri, err.Error())
+	}
+
+	if !u.IsAbs() || !uriCharsRegex.MatchString(uri) {
+		return fmt.Errorf("service endpoint '%s' is not a valid URI", uri)
 	}
 
 	return nil
